@@ -19,6 +19,8 @@ CONSTANTS
   DamageKinds = {"crc", "type", "zero"}
   CrcQuarantinesBlock = FALSE
   MinOpsBeforeCrash = 0
+  WithPersistCalls = FALSE
+  WithNoops = FALSE
 INIT MCInit
 NEXT MCNext
 INVARIANTS VerdictOk BatchAtomic BufInv
